@@ -1,0 +1,48 @@
+// Copyright 2023-2026 Buf Technologies, Inc.
+//
+// Licensed under the Apache License, Version 2.0 (the "License");
+// you may not use this file except in compliance with the License.
+// You may obtain a copy of the License at
+//
+//      http://www.apache.org/licenses/LICENSE-2.0
+//
+// Unless required by applicable law or agreed to in writing, software
+// distributed under the License is distributed on an "AS IS" BASIS,
+// WITHOUT WARRANTIES OR CONDITIONS OF ANY KIND, either express or implied.
+// See the License for the specific language governing permissions and
+// limitations under the License.
+
+//go:build verif
+
+package vanguard
+
+import "bytes"
+
+// VerifPoolHook, when non-nil, observes every buffer-pool operation. It is
+// only compiled with the "verif" build tag and is used by the external
+// verification harness to track buffer ownership (event is one of "get",
+// "put", "wrap-new", "wrap-same"). The pool argument identifies the pool
+// (one per Transcoder).
+var VerifPoolHook func(pool any, event string, buf *bytes.Buffer) //nolint:gochecknoglobals
+
+func verifPoolGet(pool *bufferPool, buf *bytes.Buffer) {
+	if hook := VerifPoolHook; hook != nil {
+		hook(pool, "get", buf)
+	}
+}
+
+func verifPoolPut(pool *bufferPool, buf *bytes.Buffer) {
+	if hook := VerifPoolHook; hook != nil {
+		hook(pool, "put", buf)
+	}
+}
+
+func verifPoolWrap(pool *bufferPool, data []byte, orig *bytes.Buffer) {
+	if hook := VerifPoolHook; hook != nil {
+		if cap(data) > orig.Cap() {
+			hook(pool, "wrap-new", orig)
+		} else {
+			hook(pool, "wrap-same", orig)
+		}
+	}
+}
